@@ -919,6 +919,10 @@ func (c *Ctx) k4ReversalIn(fn *ssa.Function) (bool, string, bool) {
 	}
 	// and the reversed buffer is what big.Int.SetBytes receives, and it derives from a parameter
 	sb := findCalls(fn, staticIs("math/big", "Int", "SetBytes"))
+	// … or the package's own big-endian decoder (which parses with big.Int.SetBytes: rule D10)
+	if fn.Name() != "SetBytes" {
+		sb = append(sb, findCalls(fn, staticIs("bandersnatch/fr", "Element", "SetBytes"))...)
+	}
 	okFlow := false
 	if len(sb) == 1 && reversed != nil {
 		arg := sb[0].Common().Args[1]
